@@ -294,6 +294,14 @@ def debug_value(v, ty=""):
     raise Unknown("debug formatting of %r" % (v,))
 
 
+class Endless:
+    """iter::repeat(x) / iter::repeat_with(f): only `take(n)` makes a table of it"""
+
+    def __init__(self, item, call):
+        self.item = item
+        self.call = call
+
+
 class PyFn:
     """A function item used as a value (`.map(Some)`, `.map_or(x, f)`)."""
 
@@ -732,7 +740,9 @@ class Interp:
         if k == "Closure":
             return PyClosure(e.get("path"), env)
         if k == "FnRef":
-            return PyFn(e.get("fn") or "")
+            pf_ = PyFn(e.get("fn") or "")
+            pf_.ty = e.get("ty") or ""
+            return pf_
         if k == "Zst":
             return Opaque("zst")
         raise Unknown("expression kind " + str(k))
@@ -992,6 +1002,25 @@ class Interp:
             if isinstance(v, (list, tuple)):
                 return Enum("Option", "Some", {"0": v[0]}) if v else Enum("Option", "None")
             raise Unknown("peek on %r" % (v,))
+        if gen == "core::iter::sources::from_fn::from_fn" and len(args) == 1:
+            c_ = self.ev(args[0], env, depth)
+            out_ = []
+            for _ in range(self.max_loop + 1):
+                r_ = self.call_callable(c_, [], depth)
+                if isinstance(r_, Enum) and r_.variant == "None":
+                    return out_
+                if not (isinstance(r_, Enum) and r_.variant == "Some"):
+                    raise Unknown("from_fn closure result %r" % (r_,))
+                out_.append(r_.fields["0"])
+            raise Unknown("from_fn does not end within the table bound")
+        if gen in ("core::iter::sources::repeat_with::repeat_with", "core::iter::sources::repeat::repeat", "core::iter::sources::repeat_n::repeat_n") and args:
+            if gen.endswith("repeat_n"):
+                v0_, n0_ = self.ev(args[0], env, depth), self.ev(args[1], env, depth)
+                if isinstance(n0_, int) and n0_ <= 4096:
+                    import copy as _c
+                    return [v0_ if isinstance(v0_, (bool, int, float, str)) else _c.deepcopy(v0_) for _ in range(n0_)]
+                raise Unknown("repeat_n count %r" % (n0_,))
+            return Endless(self.ev(args[0], env, depth), gen.endswith("repeat_with"))
         if gen == "core::iter::adapters::zip::zip" and len(args) == 2:
             a0, b0 = self.ev(args[0], env, depth), self.ev(args[1], env, depth)
             a0 = a0.get() if isinstance(a0, Ref) else a0
@@ -1048,6 +1077,14 @@ class Interp:
                     else:
                         raise Unknown("iterator %s too long for a table" % v.adt)
                     v = items_
+            if isinstance(v, Endless):
+                if m != "take":
+                    raise Unknown("iterator method %s on an endless iterator" % m)
+                k2 = self.ev(args[1], env, depth)
+                if not isinstance(k2, int) or k2 > 4096:
+                    raise Unknown("take count %r" % (k2,))
+                import copy as _c
+                return [self.call_callable(v.item, [], depth) if v.call else (v.item if isinstance(v.item, (bool, int, float, str)) else _c.deepcopy(v.item)) for _ in range(k2)]
             if not isinstance(v, (list, tuple)):
                 raise Unknown("iterator method %s on %r" % (m, v))
             raw = v
@@ -2486,6 +2523,20 @@ class Interp:
                 v0 = vals[0].get() if isinstance(vals[0], Ref) else vals[0]
                 if isinstance(v0, (str, int, float, bool)):
                     return str(v0) if (c.path.endswith("to_string") and not isinstance(v0, str) and not isinstance(v0, bool)) else v0
+            if c.path == "core::default::Default::default" and not vals and " -> " in getattr(c, "ty", ""):
+                # `Default::default` handed over as a function: the item's type names what it makes (`fn() -> T {..}`)
+                rt_ = c.ty.split(" -> ", 1)[1].rsplit(" {", 1)[0].strip()
+                return self.default_of(rt_, depth)
+            if short(c.path) in ("new", "default") and not vals and c.path.startswith(("alloc::vec::Vec", "alloc::string::String", "core::default::Default", "std::collections::hash")):
+                # `Vec::new` / `String::new` / `HashMap::new` / `Default::default` handed over as a function
+                if c.path.startswith("alloc::vec::Vec"):
+                    return []
+                if c.path.startswith("alloc::string::String"):
+                    return ""
+                if "HashSet" in c.path:
+                    return HSet()
+                if "HashMap" in c.path:
+                    return HMap()
             if "::" in c.path:
                 # a tuple-variant / tuple-struct constructor used as a function (`.map(RootDefinition::Function)`)
                 adt_path, vname = c.path.rsplit("::", 1)
